@@ -74,8 +74,10 @@ def get_evaluable_architecture(
             convert_partial_match_to_regex(pattern) for pattern in external_exclusions
         )
 
-    root_as_path = Path(root_path)
-    module_as_path = Path(module_path)
+    # '..' components are resolved first: a module path such as '<root>/../other' lies outside of the root path, and
+    # module names are derived from the directories between the root path and the modules
+    root_as_path = Path(os.path.normpath(root_path))
+    module_as_path = Path(os.path.normpath(module_path))
 
     path_diff_between_root_and_module = str(
         module_as_path.relative_to(root_as_path)
